@@ -1,6 +1,6 @@
 (* Extract/ExtractSyntax.v — entry point of the syntax models (parser; later serializer) for the
    correspondence check.  Result shapes are those of harness/src/bin/syn_run.rs. *)
-From FluentV Require Import Base.Sexp Base.Bytes Base.Outcome Base.Utf8 Syntax.Ast Syntax.ParserModel Syntax.SerializerModel.
+From FluentV Require Import Base.Sexp Base.Bytes Base.Outcome Base.Utf8 Syntax.Ast Syntax.ParserModel Syntax.SerializerModel Syntax.Render.
 
 Definition enc_kind (k : ekind) : list sexp :=
   match k with
@@ -54,6 +54,16 @@ Definition run_case (c : sexp) : sexp :=
         L [sym "ok"; a; a; b; b; tn; L [sym "same"; sym "true"; sym "true"]]
       else if is_sym "parse" t || is_sym "parse_owned" t then enc_parse_result (parse text)
       else if is_sym "parse_runtime" t || is_sym "parse_runtime_owned" t then enc_parse_result (parse_runtime text)
+      else bad
+  | L [t; L cs; x] =>
+      (* (render (choice ...) <resource>) -> (ok #text wf?) *)
+      if is_sym "render" t then
+        match dec_resource x with
+        | Some r =>
+            let nat_of (y : sexp) := match y with I z => Z.to_nat z | _ => O end in
+            L [sym "ok"; A (render (map nat_of cs) r); sbool (wf_resource r)]
+        | None => bad
+        end
       else bad
   | L [t; flag; x] =>
       if is_sym "serialize" t then
